@@ -74,7 +74,7 @@ CHECKS = {
              "bounds or an IN list, paired with the plain-comparison formulation). TLC checks on the model that the members of each group are equal on every enumerated database (ThmRewrite, and "
              "NOT IN = NOT EXISTS exactly when no NULL keys), and every rendering is executed on the real engine and validated against EvalQ of its own "
              "AST - plain, after ANALYZE (cost-based join order) and with indexes on the join columns plus ANALYZE (index access paths).",
-        note=TRUST + "Quick: T1 <= 2 rows, T2 <= 1 row, variants plain + indexed_analyze; thorough: T2 <= 2 rows, four variants. Join reordering "
+        note=TRUST + "Quick: T1 <= 2 rows, T2 <= 1 row, variants plain + indexed_analyze; thorough: the same bounds under all four variants (plain, analyze, indexed, indexed_analyze). Join reordering "
              "search beyond three tables and hash-join spill sizes are not reached at this scale."),
     "C06": dict(
         engine="engine", category="model_checking", technique=T_SEM, design="DESIGN.md section 6 (C06), section 10",
@@ -142,13 +142,13 @@ CHECKS = {
              "a change). The model is checked for RollbackRestores / CommitKeeps; every history is replayed and after every statement TLC compares table "
              "contents, the index registry and the contents of every index with the specification state. This check owns mismatches on COMMIT / ROLLBACK "
              "(and shares those on other statements with C14).",
-        note=TRUST + "Quick: <= 5 statements after the starting point; thorough <= 7. DDL other than CREATE/DROP INDEX inside transactions is in C33's model."),
+        note=TRUST + "Quick: <= 5 statements after the starting point; thorough <= 6 (disk-backed configuration over every 4th / every 2nd history). DDL other than CREATE/DROP INDEX inside transactions is in C33's model."),
     "C14": dict(
         engine="engine", category="model_checking", technique=T_ENGINE, design="DESIGN.md section 6 (C14), section 10",
         text="Same model and replay as C13 (MC_Txn.tla, RollToRestores / ReleaseKeepsData checked on the model). This check owns mismatches on "
              "SAVEPOINT / ROLLBACK TO SAVEPOINT / RELEASE: table contents after ROLLBACK TO must equal those at the savepoint, the savepoint stays, "
              "later ones are destroyed, rolling back to a released or destroyed savepoint is an error.",
-        note=TRUST + "Quick: <= 5 statements after the starting point (which may already hold SAVEPOINT A followed by an UPDATE); thorough <= 7. "
+        note=TRUST + "Quick: <= 5 statements after the starting point (which may already hold SAVEPOINT A followed by an UPDATE); thorough <= 6. "
              "Savepoint names are not re-used while live."),
     "C15": dict(
         engine="engine", category="model_checking", technique=T_ENGINE, design="DESIGN.md section 6 (C15), section 10",
@@ -157,7 +157,7 @@ CHECKS = {
              "ROLLBACK TO) the harness dumps primary_key_index, unique_indexes and get_index_data of every index; TLC (TraceEngine!IndexInv) checks that "
              "each equals the function of the logged rows: exactly the current keys (prefix-truncated per definition, NULL keys left out of constraint "
              "indexes) mapped to the current row positions.",
-        note=TRUST + "Quick: MC_Idx depth 3 exhaustive (<= 3 rows, <= 2 of 6 index definitions), MC_Dml depth 6, MC_Txn depth 5; thorough one level deeper. "
+        note=TRUST + "Quick: MC_Idx depth 3 exhaustive (<= 3 rows, <= 2 of 6 index definitions), MC_Dml depth 6, MC_Txn depth 5, MC_Upsert depth 3, all from populated starting points; thorough one level deeper (MC_Idx: a seeded sample of 150 000 of the depth-4 histories). "
              "Persistence reloads are checked by C18."),
     "C16": dict(
         engine="engine", category="model_checking", technique=T_ENGINE + "; three index back-end configurations (hook H3)",
@@ -320,7 +320,7 @@ CHECKS = {
              "DROP + CREATE of a table. TLC validates every answer - served from the cache or not - against EvalQ on the specification state; the run is "
              "rejected as vacuous if no answer came from the cache. The model constant Fill = 2 makes every miss be filled by two readers that missed at "
              "the same time (the second store replaces an entry with the same signature); both variants are run.",
-        note=TRUST + "Quick: histories of <= 3 actions after the setup, thorough <= 4. The adapter itself is test code and out of reach; changes in "
+        note=TRUST + "Quick: histories of <= 3 actions after the setup (both Fill variants), thorough <= 4 for one reader. The adapter itself is test code and out of reach; changes in "
              "crates/vibesql-executor/src/cache/*.rs are observed. One known finding (view over a written base table) is reported as KNOWN-FINDING."),
     "C26": dict(
         engine="engine", category="model_checking", technique=T_ENGINE, design="DESIGN.md section 6 (C26), section 10",
